@@ -39,7 +39,7 @@ RampW(w, start, target, i, invd, us) ==
 
 PostOf(s, c) ==
     CASE c.act = "set_speed" -> Drive(ClampS(c.a[1]), s.inv)
-      [] c.act = "backward" -> Drive(-Abs(ClampS(c.a[1])), s.inv)
+      [] c.act = "backward" -> Drive(-Abs(ClampS(IF Len(c.a) = 0 THEN ONE ELSE c.a[1])), s.inv)     \* backward() = backward(1.0)
       [] c.act = "stop" -> St(0, s.inv, "brake", 0)
       [] c.act = "coast" -> St(0, s.inv, "coast", 0)
       [] c.act = "invert" -> Drive(s.speed, ~s.inv)
@@ -121,7 +121,7 @@ StepDiff(sd, s, c, t, w, r) ==
 -----------------------------------------------------------------------------
 CONSTANTS Speeds, Durations
 Calls == {Call(a, <<>>) : a \in {"stop", "coast", "invert"}}
-         \cup {Call(a, <<v>>) : a \in {"set_speed", "backward"}, v \in Speeds}
+         \cup {Call(a, <<v>>) : a \in {"set_speed", "backward"}, v \in Speeds} \cup {Call("backward", <<>>)}
          \cup {Call("ramp", <<v, d>>) : v \in Speeds, d \in Durations}
          \cup {Call("run_for", <<d, v>>) : v \in Speeds, d \in Durations}
 
